@@ -477,15 +477,22 @@ class Gen:
             return [("s", f"{self.choice(nm)} = {c}")]
         return [("s", f"mon.write({c})")]
 
+    def arm(self, depth, loop_depth, in_main, budget):
+        """body of one branch; sometimes empty on the device (pass / host-only print): the condition still has to be honoured"""
+        if self.chance(0.1):
+            self.feat("empty_arm")
+            return [("s", self.choice(["pass", "print(0)"]))]
+        return self.block(depth + 1, loop_depth, in_main, budget)
+
     def s_if(self, depth, loop_depth, in_main):
         self.feat("if")
-        out = [("b", f"if {self.e_bool(2)}:", self.block(depth + 1, loop_depth, in_main, 4))]
+        out = [("b", f"if {self.e_bool(2)}:", self.arm(depth, loop_depth, in_main, 4))]
         for _ in range(self.d(st.integers(0, 2))):
             self.feat("elif")
-            out.append(("b", f"elif {self.e_bool(2)}:", self.block(depth + 1, loop_depth, in_main, 3)))
+            out.append(("b", f"elif {self.e_bool(2)}:", self.arm(depth, loop_depth, in_main, 3)))
         if self.chance(0.5):
             self.feat("else")
-            out.append(("b", "else:", self.block(depth + 1, loop_depth, in_main, 3)))
+            out.append(("b", "else:", self.arm(depth, loop_depth, in_main, 3)))
         return out
 
     def s_for(self, depth, loop_depth, in_main):
@@ -627,6 +634,28 @@ class Gen:
         self.feat("device_call:" + k)
         return [("s", f"{k}.{self.choice(opts)}")]
 
+    def late_decls(self):
+        """names first assigned in the prologue *after* other statements ran (single and all-new tuple targets): their value is the
+        value of the right-hand side at that point of the run, not at start-up."""
+        out = []
+        for i in range(self.d(st.integers(0, 2))):
+            self.feat("late_first_assign")
+            if self.chance(0.5):
+                t = self.choice(["int", "int", "float", "str"])
+                n = f"n{i}"
+                out.append(("s", f"{n} = {self.expr(t, 2)}"))
+                self.vars[n] = t
+                out.append(("s", f"mon.write({n})"))
+            else:
+                t1, t2 = self.choice(["int", "float"]), self.choice(["int", "int", "float"])
+                a, b = f"n{i}", f"r{i}"
+                out.append(("s", f"{a}, {b} = {self.expr(t1, 2)}, {self.expr(t2, 2)}"))
+                self.vars[a], self.vars[b] = t1, t2
+                out += [("s", f"mon.write({a})"), ("s", f"mon.write({b})")]
+            if self.chance(0.5):
+                out.extend(self.stmt(0, 0, False))
+        return out
+
     # ---------------------------------------------------------------- helpers (functions)
     def helper(self, idx):
         name = f"h{idx}"
@@ -759,6 +788,7 @@ class Gen:
         for i in range(self.d(st.integers(0, self.p.helpers))):
             nodes.append(self.helper(i))
         nodes.extend(self.block(0, 0, False, 8))
+        nodes.extend(self.late_decls())
         has_main = self.chance(self.p.main_loop)
         if has_main:
             self.feat("main_loop")
@@ -797,7 +827,7 @@ def count_nodes(nodes):
 
 import re as _re
 
-_DECL = _re.compile(r"^(from |mon = |led = |[iwfsbclm]\d = )")
+_DECL = _re.compile(r"^(from |mon = |led = |[iwfsbclmnr]\d = |[nr]\d, [nr]\d = )")
 
 
 def is_decl(node):
